@@ -262,12 +262,14 @@ func (it *Iterator) decodeCurrent() ([]byte, []byte, bool) {
 	key := make([]byte, keyLen)
 	copy(key, data[:keyLen])
 	data = data[keyLen:]
+	consumed := 2 + uint32(keyLen)
 
 	// Read sequence number if format includes it (check if enough data for both seq num and value len)
 	seqNum := uint64(0)
 	if len(data) >= 12 { // 8 for seq num + 4 for value len
 		seqNum = binary.LittleEndian.Uint64(data)
 		data = data[8:]
+		consumed += 8
 	}
 
 	// Read value
@@ -295,6 +297,14 @@ func (it *Iterator) decodeCurrent() ([]byte, []byte, bool) {
 	it.currentKey = key
 	it.currentVal = value
 	it.currentSeqNum = seqNum
+
+	// Leave the position behind the entry, as decodeNext does: the next call of
+	// decodeNext must decode the following entry, not this one again
+	if valueLen == TombstoneValueLengthMarker {
+		it.currentPos += consumed + 4
+	} else {
+		it.currentPos += consumed + 4 + valueLen
+	}
 
 	return key, value, true
 }
